@@ -78,30 +78,30 @@ Qed.
 
 (* ---- rotations and rebalancing keep the in-order listing (unconditionally) ---- *)
 
-Lemma inorder_mk l lo hi r : inorder (mk l lo hi r) = inorder l ++ (lo, hi) :: inorder r.
+Lemma inorder_mk l lo hi tg r : inorder (mk l lo hi tg r) = inorder l ++ (lo, hi) :: inorder r.
 Proof. reflexivity. Qed.
 
 Lemma inorder_rotate_right t : inorder (rotate_right t) = inorder t.
 Proof.
-  destruct t as [|[|ll llo lhi lm lh lr] lo hi m h r]; try reflexivity.
+  destruct t as [|[|ll llo lhi ltg lm lh lr] lo hi tg m h r]; try reflexivity.
   cbn [rotate_right]. rewrite !inorder_mk. cbn [inorder]. rewrite <- app_assoc. reflexivity.
 Qed.
 
 Lemma inorder_rotate_left t : inorder (rotate_left t) = inorder t.
 Proof.
-  destruct t as [|l lo hi m h [|rl rlo rhi rm rh rr]]; try reflexivity.
+  destruct t as [|l lo hi tg m h [|rl rlo rhi rtg rm rh rr]]; try reflexivity.
   cbn [rotate_left]. rewrite !inorder_mk. cbn [inorder]. rewrite <- app_assoc. reflexivity.
 Qed.
 
 Lemma inorder_set_left_rot t : inorder (set_left t (rotate_left (left t))) = inorder t.
 Proof.
-  destruct t as [|l lo hi m h r]; [reflexivity|].
+  destruct t as [|l lo hi tg m h r]; [reflexivity|].
   cbn [set_left left inorder]. rewrite inorder_rotate_left. reflexivity.
 Qed.
 
 Lemma inorder_set_right_rot t : inorder (set_right t (rotate_right (right t))) = inorder t.
 Proof.
-  destruct t as [|l lo hi m h r]; [reflexivity|].
+  destruct t as [|l lo hi tg m h r]; [reflexivity|].
   cbn [set_right right inorder]. rewrite inorder_rotate_right. reflexivity.
 Qed.
 
@@ -118,9 +118,9 @@ Proof.
   unfold rebalance_ins.
   repeat match goal with
          | |- context [if ?c then _ else _] => destruct c
-         | |- context [match left ?t with Leaf => _ | Node _ _ _ _ _ _ => _ end] =>
+         | |- context [match left ?t with Leaf => _ | Node _ _ _ _ _ _ _ => _ end] =>
              destruct (left t) eqn:?
-         | |- context [match right ?t with Leaf => _ | Node _ _ _ _ _ _ => _ end] =>
+         | |- context [match right ?t with Leaf => _ | Node _ _ _ _ _ _ _ => _ end] =>
              destruct (right t) eqn:?
          end;
     rewrite ?inorder_rotate_right, ?inorder_rotate_left; try reflexivity.
@@ -132,13 +132,13 @@ Qed.
 
 (* ---- insertion ---- *)
 
-Lemma ins_inorder xlo xhi t :
+Lemma ins_inorder xlo xhi xtg t :
   sorted (inorder t) ->
   exists l1 l2,
-    inorder t = l1 ++ l2 /\ inorder (ins xlo xhi t) = l1 ++ (xlo, xhi) :: l2
+    inorder t = l1 ++ l2 /\ inorder (ins xlo xhi xtg t) = l1 ++ (xlo, xhi) :: l2
     /\ (forall y, In y l1 -> lex_le y (xlo, xhi)) /\ (forall y, In y l2 -> lex_lt (xlo, xhi) y).
 Proof.
-  induction t as [|l IHl lo hi mx h r IHr]; intros Hs.
+  induction t as [|l IHl lo hi tg mx h r IHr]; intros Hs.
   - exists [], []. cbn [ins inorder app]. repeat split; auto; intros ? [].
   - cbn [inorder] in Hs. apply sorted_node in Hs as (Hsl & Hsr & Hlk & Hkr).
     cbn [ins]. destruct (less xlo xhi lo hi) eqn:Hless.
@@ -158,32 +158,103 @@ Proof.
       eapply lex_le_trans; [apply Hlk; exact Hy|exact Hless].
 Qed.
 
-Lemma ins_sorted xlo xhi t : sorted (inorder t) -> sorted (inorder (ins xlo xhi t)).
+Lemma ins_sorted xlo xhi xtg t : sorted (inorder t) -> sorted (inorder (ins xlo xhi xtg t)).
 Proof.
-  intros Hs. destruct (ins_inorder xlo xhi t Hs) as (l1 & l2 & E1 & E2 & F1 & F2).
+  intros Hs. destruct (ins_inorder xlo xhi xtg t Hs) as (l1 & l2 & E1 & E2 & F1 & F2).
   rewrite E2. rewrite E1 in Hs. unfold sorted in Hs. apply ssorted_app in Hs as (H1 & H2 & H3).
   apply sorted_node. repeat split; auto. intros y Hy. apply lex_lt_le. auto.
 Qed.
 
-Lemma ins_perm xlo xhi t :
-  sorted (inorder t) -> Permutation (inorder (ins xlo xhi t)) ((xlo, xhi) :: inorder t).
+Lemma ins_perm xlo xhi xtg t :
+  sorted (inorder t) -> Permutation (inorder (ins xlo xhi xtg t)) ((xlo, xhi) :: inorder t).
 Proof.
-  intros Hs. destruct (ins_inorder xlo xhi t Hs) as (l1 & l2 & E1 & E2 & _).
+  intros Hs. destruct (ins_inorder xlo xhi xtg t Hs) as (l1 & l2 & E1 & E2 & _).
   rewrite E1, E2. symmetry. apply Permutation_middle.
 Qed.
 
 (* ---- deletion ---- *)
 
-Lemma find_min_head l : forall lo hi,
-  exists rest, inorder l ++ [(lo, hi)] = find_min lo hi l :: rest.
+(* ---- items (bounds + payload tag) ---- *)
+
+Definition key (x : Z * Z * Z) : Z * Z := (fst (fst x), snd (fst x)).
+Definition tag (x : Z * Z * Z) : Z := snd x.
+
+Lemma inorder_items t : inorder t = map key (items t).
 Proof.
-  induction l as [|ll IHll llo lhi lm lh lr _]; intros lo hi.
-  - exists []. reflexivity.
-  - cbn [find_min inorder]. destruct (IHll llo lhi) as (rest & E).
-    exists (rest ++ inorder lr ++ [(lo, hi)]).
-    change (find_min llo lhi ll :: rest ++ inorder lr ++ [(lo, hi)])
-      with ((find_min llo lhi ll :: rest) ++ inorder lr ++ [(lo, hi)]).
-    rewrite <- E, <- !app_assoc. reflexivity.
+  induction t as [|l IHl lo hi tg mx h r IHr]; [reflexivity|].
+  cbn [inorder items]. rewrite map_app. cbn [map]. rewrite IHl, IHr. reflexivity.
+Qed.
+
+Lemma items_mk l lo hi tg r : items (mk l lo hi tg r) = items l ++ (lo, hi, tg) :: items r.
+Proof. reflexivity. Qed.
+
+Lemma items_rotate_right t : items (rotate_right t) = items t.
+Proof.
+  destruct t as [|[|ll llo lhi ltg lm lh lr] lo hi tg m h r]; try reflexivity.
+  cbn [rotate_right]. rewrite !items_mk. cbn [items]. rewrite <- app_assoc. reflexivity.
+Qed.
+
+Lemma items_rotate_left t : items (rotate_left t) = items t.
+Proof.
+  destruct t as [|l lo hi tg m h [|rl rlo rhi rtg rm rh rr]]; try reflexivity.
+  cbn [rotate_left]. rewrite !items_mk. cbn [items]. rewrite <- app_assoc. reflexivity.
+Qed.
+
+Lemma items_set_left_rot t : items (set_left t (rotate_left (left t))) = items t.
+Proof.
+  destruct t as [|l lo hi tg m h r]; [reflexivity|].
+  cbn [set_left left items]. rewrite items_rotate_left. reflexivity.
+Qed.
+
+Lemma items_set_right_rot t : items (set_right t (rotate_right (right t))) = items t.
+Proof.
+  destruct t as [|l lo hi tg m h r]; [reflexivity|].
+  cbn [set_right right items]. rewrite items_rotate_right. reflexivity.
+Qed.
+
+Lemma items_rebalance_del t : items (rebalance_del t) = items t.
+Proof.
+  unfold rebalance_del.
+  repeat match goal with |- context [if ?c then _ else _] => destruct c end;
+    rewrite ?items_rotate_right, ?items_rotate_left,
+            ?items_set_left_rot, ?items_set_right_rot; reflexivity.
+Qed.
+
+Lemma items_rebalance_ins xlo xhi t : items (rebalance_ins xlo xhi t) = items t.
+Proof.
+  unfold rebalance_ins.
+  repeat match goal with
+         | |- context [if ?c then _ else _] => destruct c
+         | |- context [match left ?t with Leaf => _ | Node _ _ _ _ _ _ _ => _ end] =>
+             destruct (left t) eqn:?
+         | |- context [match right ?t with Leaf => _ | Node _ _ _ _ _ _ _ => _ end] =>
+             destruct (right t) eqn:?
+         end;
+    rewrite ?items_rotate_right, ?items_rotate_left; try reflexivity.
+  - match goal with H : left t = _ |- _ => rewrite <- H end.
+    rewrite items_set_left_rot. reflexivity.
+  - match goal with H : right t = _ |- _ => rewrite <- H end.
+    rewrite items_set_right_rot. reflexivity.
+Qed.
+
+(* removeMin unlinks exactly the first item of the in-order listing, which is findMin's *)
+Lemma remove_min_spec l : forall lo hi tg mx h r,
+  snd (remove_min (Node l lo hi tg mx h r)) = 1
+  /\ items (Node l lo hi tg mx h r)
+     = find_min lo hi tg l :: items (fst (remove_min (Node l lo hi tg mx h r))).
+Proof.
+  induction l as [|ll IHll llo lhi ltg lm lh lr _]; intros lo hi tg mx h r.
+  - cbn [remove_min fst snd find_min items app]. split; reflexivity.
+  - change (remove_min (Node (Node ll llo lhi ltg lm lh lr) lo hi tg mx h r))
+      with (let '(l', k) := remove_min (Node ll llo lhi ltg lm lh lr) in
+            (rebalance_del (mk l' lo hi tg r), k)).
+    destruct (IHll llo lhi ltg lm lh lr) as [Hk Hi].
+    destruct (remove_min (Node ll llo lhi ltg lm lh lr)) as [l' k]. cbn [fst snd] in *.
+    split; [exact Hk|].
+    rewrite items_rebalance_del, items_mk. cbn [find_min].
+    change (items (Node (Node ll llo lhi ltg lm lh lr) lo hi tg mx h r))
+      with (items (Node ll llo lhi ltg lm lh lr) ++ (lo, hi, tg) :: items r).
+    rewrite Hi. reflexivity.
 Qed.
 
 Lemma perm_move {A} (x k : A) l r : Permutation (x :: l ++ k :: r) (l ++ k :: x :: r).
@@ -209,7 +280,7 @@ Lemma del_spec t : forall dlo dhi,
   sorted (inorder t) ->
   del_post (dlo, dhi) t (fst (del t dlo dhi)) (snd (del t dlo dhi)).
 Proof.
-  induction t as [|l IHl lo hi mx h r IHr]; intros dlo dhi Hs.
+  induction t as [|l IHl lo hi tg mx h r IHr]; intros dlo dhi Hs.
   - cbn [del fst snd]. split; [constructor|]. right. repeat split; auto.
   - cbn [inorder] in Hs. pose proof Hs as Hs0.
     apply sorted_node in Hs as (Hsl & Hsr & Hlk & Hkr).
@@ -256,36 +327,27 @@ Proof.
         assert (Ek : (lo, hi) = (dlo, dhi)) by (apply lex_le_antisym; assumption).
         assert (Hin : In (dlo, dhi) (inorder l ++ (lo, hi) :: inorder r)).
         { apply in_or_app. right. left. exact Ek. }
-        destruct l as [|ll llo lhi lm lh lr].
+        destruct l as [|ll llo lhi ltg lm lh lr].
         { unfold del_post. cbn [fst snd inorder app]. split; [exact Hsr|]. left. repeat split; auto.
           rewrite Ek. apply Permutation_refl. }
-        destruct r as [|rl rlo rhi rm rh rr].
+        destruct r as [|rl rlo rhi rtg rm rh rr].
         { unfold del_post. cbn [fst snd]. split; [exact Hsl|]. left. repeat split; auto.
           cbn [inorder]. rewrite Ek.
           symmetry. apply Permutation_cons_append. }
-        set (L := Node ll llo lhi lm lh lr) in *.
-        set (R := Node rl rlo rhi rm rh rr) in *.
-        destruct (find_min_head rl rlo rhi) as (rest & Emin).
-        destruct (find_min rlo rhi rl) as [slo shi].
-        assert (ER : inorder R = (slo, shi) :: rest ++ inorder rr).
-        { unfold R. cbn [inorder].
-          change ((rlo, rhi) :: inorder rr) with ([(rlo, rhi)] ++ inorder rr).
-          rewrite app_assoc, Emin. reflexivity. }
-        specialize (IHr slo shi Hsr). pose proof (del_post_incl _ _ _ _ IHr) as Hincl.
-        destruct (del R slo shi) as [r' k]. cbn [fst snd] in *.
-        destruct IHr as (Hsr' & Hcase).
-        destruct Hcase as [(Hins & Hk & P)|(Hnin & _)];
-          [|exfalso; apply Hnin; rewrite ER; left; reflexivity].
-        assert (Hsmin : forall y, In y (inorder R) -> lex_le (slo, shi) y).
-        { intros y Hy. rewrite ER in Hy, Hsr. destruct Hy as [<-|Hy]; [apply lex_le_refl|].
-          unfold sorted in Hsr. inversion Hsr as [|? ? _ Hf]; subst.
-          rewrite Forall_forall in Hf. auto. }
+        set (L := Node ll llo lhi ltg lm lh lr) in *.
+        set (R := Node rl rlo rhi rtg rm rh rr) in *.
+        destruct (remove_min_spec rl rlo rhi rtg rm rh rr) as [Hk Hi]. fold R in Hk, Hi.
+        destruct (find_min rlo rhi rtg rl) as [[slo shi] stg].
+        destruct (remove_min R) as [r' k]. cbn [fst snd] in *.
+        assert (ER : inorder R = (slo, shi) :: inorder r').
+        { rewrite !inorder_items, Hi. reflexivity. }
+        rewrite ER in Hsr, Hkr. unfold sorted in Hsr. inversion Hsr as [|? ? Hsr' Hf]; subst.
+        rewrite Forall_forall in Hf.
         unfold del_post. rewrite inorder_rebalance_del, inorder_mk. split.
         -- apply sorted_node. repeat split; auto.
            intros y Hy. eapply lex_le_trans; [apply Hlk; exact Hy|].
-           apply Hkr. rewrite ER. left; reflexivity.
+           apply Hkr. left; reflexivity.
         -- left. repeat split; auto. rewrite <- Ek.
-           cbn [inorder]. fold L R.
-           transitivity ((lo, hi) :: inorder L ++ inorder R); [symmetry; apply Permutation_middle|].
-           apply perm_skip. apply Permutation_app_head. exact P.
+           cbn [inorder]. fold L R. rewrite ER.
+           symmetry. apply Permutation_middle.
 Qed.
